@@ -163,7 +163,30 @@ def c04_fails(binary, c):
 
 # ------------------------------------------------------------------------------------------------ C02
 
+def c02_single(binary, c):
+    """SingleOp::c on one element of a queue: refused exactly when the mask meets the element's targets or
+    controls (the element's own act_on, read from the implementation), else act_on grows by the mask"""
+    n, idx, mask, e = c["n"], c["idx"], c["mask"], c["e"]
+    a, b = _run(binary, ["struct %s" % to_harness(e), "singlec %d %d %d %s" % (n, idx, mask, to_harness(e))])
+    ta = a.split()
+    if not ta or ta[0] != "OK":
+        return None
+    ln = int(ta[2]); acts = [int(x) for x in ta[3:3 + ln]]
+    if idx >= ln:
+        return None
+    tb = b.split()
+    if mask & acts[idx]:
+        return None if tb[:1] == ["REFUSED"] else ("SingleOp::c(%d) on an element touching %d (targets and controls) is not refused" % (mask, acts[idx]))
+    if tb[:1] != ["OK"]:
+        return "admissible control of a queue element %s" % (tb[:1] or ["died"])[0]
+    if int(tb[2]) >= 1 and int(tb[1]) != (acts[idx] | mask):
+        return "touched qubits of the controlled element are not the union of its qubits and the new controls"
+    return None
+
+
 def c02_fails(binary, c):
+    if c["kind"] == "singlec":
+        return c02_single(binary, c)
     n = case_n(c)
     if n is None or n > 6 or c["kind"] not in ("matrix", "applyraw"):
         return None
